@@ -96,11 +96,12 @@ def shallow(x):
 
 
 class Search(object):
-    def __init__(self, build, events, canon, max_states=5000):
+    def __init__(self, build, events, canon, max_states=5000, max_depth=None):
         self.build = build
         self.events = events
         self.canon = canon
         self.max_states = max_states
+        self.depth_bound = max_depth
         self.states = 0
         self.transitions = 0
         self.max_depth = 0
@@ -119,6 +120,9 @@ class Search(object):
                 on_transition(hist, ev, obs)
                 k = self.canon(obj)
                 if k not in seen:
+                    if self.depth_bound is not None and len(h2) >= self.depth_bound:
+                        self.capped = True
+                        continue
                     if len(seen) >= self.max_states:
                         self.capped = True
                         continue
